@@ -46,3 +46,29 @@ def fold_canaries(results):
         else:
             out.append(r)
     return out
+
+
+AE = "contracts.algorithm_evals"
+
+
+def specs_evals(tier, algs=("main", "nonhermitian")):
+    from contracts.algorithm_evals import term_names
+    t = 60000 if tier == "thorough" else 10000
+    s = []
+    for a in algs:
+        for tn in term_names(a):
+            for off in (False, True):
+                s.append((AE, "unit_eval", {"alg_name": a, "term_name": tn, "have_offdiag": off, "timeout_ms": t}))
+        # one canary per algorithm: a wrong equation must be refuted
+        s.append((AE, "unit_eval", {"alg_name": a, "term_name": "B", "have_offdiag": True, "timeout_ms": t, "canary": True}))
+    return s
+
+
+def specs_wiring(tier, algs=("main", "nonhermitian")):
+    t = 60000 if tier == "thorough" else 10000
+    cfgs = [(2, 1, False), (3, 2, True), (1, 1, False)]
+    if tier == "thorough":
+        cfgs += [(2, 3, False), (4, 1, True)]
+    s = [(AE, "unit_wiring", {"alg_name": a, "nblocks": nb, "ninf": ni, "with_scope": ws, "timeout_ms": t}) for a in algs for nb, ni, ws in cfgs]
+    s += [(AE, "unit_helpers", {"nterms": k, "timeout_ms": t}) for k in ((1, 2, 3, 4, 5, 7) if tier == "thorough" else (1, 3, 5))]
+    return s
